@@ -311,6 +311,10 @@ def _goal(ctx, p, r_goal):
 
 
 def _terminal_ok(ctx, p, fn, ob, cont, idx, gqs):
+    if not idx:
+        # every definition that reaches the extractor's index here is a literal of another variant (`Ok(None)` on the copy of
+        # the path where the search came back empty): this Ok return cannot be taken on this copy
+        return True, ''
     sfs = {c['state_field'] for c in p['containers'].values()}
     sf = list(sfs)[0]
     # (1) container rooted at a goal sample: the walk ends there (sample_goal contract)
